@@ -206,6 +206,18 @@ def run(items, fn, horizon=20.0, nproc=None, chunk=8, budget_s=None, label=""):
     _worker_fn = fn
     _worker_horizon = horizon
     nproc = nproc or base.NPROC
+    # calibration aids (never set by the registered commands): VSGMC_LIST_IDS=<file> appends the ids of the items and executes nothing;
+    # VSGMC_SKIP_IDS=<file> leaves out the items listed there, so that a larger tier can be calibrated on what it adds to a smaller one
+    lst = os.environ.get("VSGMC_LIST_IDS")
+    if lst:
+        with open(lst, "a") as f:
+            for it in items:
+                f.write(item_id(it) + "\n")
+        items = []
+    skp = os.environ.get("VSGMC_SKIP_IDS")
+    if skp and os.path.exists(skp):
+        have = set(open(skp).read().split("\n"))
+        items = [it for it in items if item_id(it) not in have]
     indexed = list(enumerate(items))
     m = Merged()
     m.total_items = len(indexed)
